@@ -22,6 +22,14 @@ pub enum T {
     Vec(Box<T>),
     Ref(Box<T>),
     Fn(Vec<T>, Box<T>),
+    /// `Bx[T]` — generic struct with one field (rich_generics)
+    Bx(Box<T>),
+    /// `Pr[A, B]` — generic struct with two parameters (rich_generics)
+    Pr(Box<T>, Box<T>),
+    /// `Lst[T]` — recursive generic enum (rich_generics)
+    Lst(Box<T>),
+    /// a type parameter of the generic function being generated
+    Param(usize),
 }
 
 #[derive(Clone, Copy, Debug, Default)]
@@ -43,6 +51,15 @@ pub struct Cfg {
     /// struct literals written out of declaration order whose initialisers have effects
     /// (evaluation order of the initialisers; known finding): separate stream
     pub lit_field_effects: bool,
+    /// C07: a library of generic functions / methods / types, random generic functions, and
+    /// instantiations at tuples, arrays, Ref, function types, structs, enums, nested generic types
+    pub rich_generics: bool,
+    /// C07: generic functions over `Vec[T]` and generic types inside `Vec`
+    pub vec_generics: bool,
+    /// C07: generic functions with a `dyn Trait` parameter, type parameters instantiated at `dyn Trait`
+    pub dyn_generics: bool,
+    /// C07: a generic function used as a first-class value (known finding): own stream
+    pub generic_fn_values: bool,
     /// C06: matches with nested patterns (tuples, structs, enums, literals) over random data types
     pub nested_patterns: bool,
 }
@@ -57,6 +74,10 @@ struct FnD {
     name: String,
     params: Vec<T>,
     ret: T,
+    /// number of type parameters (0 = monomorphic); parameter i is `Param(i)`
+    tparams: usize,
+    /// type parameters carrying a `Show` bound
+    bounded: Vec<usize>,
 }
 
 pub struct Gen<'a> {
@@ -66,6 +87,14 @@ pub struct Gen<'a> {
     enums: Vec<EnumD>,
     fns: Vec<FnD>,
     show_impls: Vec<T>,
+    /// type parameters with a `Show` bound while the body of a generic function is generated
+    cur_bounded: Vec<usize>,
+    /// C03: inject exactly one type error at the `at`-th site of kind `kind`
+    pub inject: Option<(&'static str, usize)>,
+    pub site_count: BTreeMap<&'static str, usize>,
+    pub injected: Option<String>,
+    /// the next `block` is the body of a top-level function (its tail must have the declared result type)
+    top_block: bool,
     uid: usize,
     pub feats: BTreeMap<&'static str, usize>,
 }
@@ -74,10 +103,29 @@ type Scope = Vec<(String, T)>;
 
 impl<'a> Gen<'a> {
     pub fn new(rng: &'a mut Rng, cfg: Cfg) -> Self {
-        Gen { rng, cfg, structs: vec![], enums: vec![], fns: vec![], show_impls: vec![], uid: 0, feats: BTreeMap::new() }
+        Gen { rng, cfg, structs: vec![], enums: vec![], fns: vec![], show_impls: vec![], cur_bounded: vec![], inject: None, site_count: BTreeMap::new(), injected: None, top_block: false, uid: 0, feats: BTreeMap::new() }
     }
     fn feat(&mut self, f: &'static str) {
         *self.feats.entry(f).or_default() += 1;
+    }
+    /// a place where the context forces the type of what is written there; true = write the error here
+    fn hit(&mut self, kind: &'static str) -> bool {
+        let c = self.site_count.entry(kind).or_default();
+        let idx = *c;
+        *c += 1;
+        if self.injected.is_none() && self.inject == Some((kind, idx)) {
+            self.injected = Some(format!("{}@{}", kind, idx));
+            if std::env::var("GV_DEBUG_HIT").is_ok() {
+                eprintln!("{}", std::backtrace::Backtrace::force_capture());
+            }
+            true
+        } else {
+            false
+        }
+    }
+    /// a literal whose type is certainly not `t`
+    fn wrong_value(t: &T) -> String {
+        if *t == T::Bool { "\"w\"".into() } else { "true".into() }
     }
     fn fresh(&mut self, p: &str) -> String {
         self.uid += 1;
@@ -101,6 +149,10 @@ impl<'a> Gen<'a> {
             T::Vec(t) => format!("Vec[{}]", self.ty_text(t)),
             T::Ref(t) => format!("Ref[{}]", self.ty_text(t)),
             T::Fn(ps, r) => format!("({}) -> {}", ps.iter().map(|t| self.ty_text(t)).collect::<Vec<_>>().join(", "), self.ty_text(r)),
+            T::Bx(t) => format!("Bx[{}]", self.ty_text(t)),
+            T::Pr(a, b) => format!("Pr[{}, {}]", self.ty_text(a), self.ty_text(b)),
+            T::Lst(t) => format!("Lst[{}]", self.ty_text(t)),
+            T::Param(i) => ["A", "B", "C"][*i].to_string(),
         }
     }
     fn base_ty(&mut self) -> T {
@@ -115,6 +167,9 @@ impl<'a> Gen<'a> {
         }
     }
     fn data_ty(&mut self, depth: usize) -> T {
+        if self.cfg.rich_generics {
+            return self.rich_ty(depth);
+        }
         if depth == 0 {
             return self.base_ty();
         }
@@ -183,6 +238,8 @@ impl<'a> Gen<'a> {
         let d = depth - 1;
         if self.cfg.src_forms && self.rng.chance(1, 4) {
             if let Some(e) = self.src_form(t, scope, d, pre) {
+        if self.cfg.rich_generics && self.rng.chance(2, 5) {
+            if let Some(e) = self.generic_call(t, scope, d, pre) {
                 return e;
             }
         }
@@ -190,9 +247,9 @@ impl<'a> Gen<'a> {
         match self.rng.below(12) {
             0 => {
                 self.feat("if");
-                let c = self.expr(&T::Bool, scope, d, pre);
+                let c = if self.hit("cond-type") { "7".to_string() } else { self.expr(&T::Bool, scope, d, pre) };
                 let a = self.block(t, scope, d);
-                let b = self.block(t, scope, d);
+                let b = if self.hit("branch-type") { format!("{{ {} }}", Self::wrong_value(t)) } else { self.block(t, scope, d) };
                 return format!("if {} {} else {}", c, a, b);
             }
             1 if !self.enums.is_empty() => {
@@ -233,7 +290,7 @@ impl<'a> Gen<'a> {
                 let it = [T::I32, T::U8, T::I8][self.rng.below(3)].clone();
                 let s = self.expr(&it, scope, d, pre);
                 let a = self.arm_body(t, scope, d);
-                let b = self.arm_body(t, scope, d);
+                let b = if self.hit("arm-type") { Self::wrong_value(t) } else { self.arm_body(t, scope, d) };
                 let v = self.fresh("n");
                 let mut sc = scope.clone();
                 sc.push((v.clone(), it.clone()));
@@ -251,17 +308,21 @@ impl<'a> Gen<'a> {
                 return format!("match ({}, {}) {{ (true, false) => {}, (false, _) => {}, _ => {}, }}", s1, s2, a, b, c);
             }
             4 if !self.fns.is_empty() => {
-                let cands: Vec<usize> = self.fns.iter().enumerate().filter(|(_, f)| &f.ret == t).map(|(i, _)| i).collect();
+                let cands: Vec<usize> = self.fns.iter().enumerate().filter(|(_, f)| f.tparams == 0 && &f.ret == t).map(|(i, _)| i).collect();
                 if !cands.is_empty() {
                     self.feat("call");
                     let fi = *self.rng.pick(&cands);
                     let ps = self.fns[fi].params.clone();
                     let name = self.fns[fi].name.clone();
-                    let args: Vec<String> = ps.iter().map(|p| self.expr(p, scope, d, pre)).collect();
+                    let mut args: Vec<String> =
+                        ps.iter().map(|p| if self.hit("arg-type") { Self::wrong_value(p) } else { self.expr(p, scope, d, pre) }).collect();
+                    if self.hit("arity") {
+                        if args.is_empty() || self.rng.chance(1, 2) { args.push("0".into()) } else { args.pop(); }
+                    }
                     return format!("{}({})", name, args.join(", "));
                 }
             }
-            5 if self.cfg.generics => {
+            5 if self.cfg.generics && !self.cfg.rich_generics => {
                 self.feat("generic-call");
                 let c = self.expr(&T::Bool, scope, d, pre);
                 let a = self.expr(t, scope, d, pre);
@@ -305,7 +366,7 @@ impl<'a> Gen<'a> {
             9 => {
                 self.feat("array-roundtrip");
                 let a = self.expr(t, scope, d, pre);
-                let b = self.expr(t, scope, d, pre);
+                let b = if self.hit("elem-type") { Self::wrong_value(t) } else { self.expr(t, scope, d, pre) };
                 let arr = self.fresh("ar");
                 write!(pre, "let {} = [{}, {}]; ", arr, a, b).unwrap();
                 let i = self.rng.below(2);
@@ -586,12 +647,20 @@ impl<'a> Gen<'a> {
     /// statements in front would change what is evaluated, e.g. the right side of `&&`)
     fn pure_expr(&mut self, t: &T, scope: &Scope, depth: usize) -> String {
         let mut pre = String::new();
+        // what is generated here may be thrown away: no injection site inside
+        let saved = (self.inject.take(), self.site_count.clone());
         let e = self.expr(t, scope, depth, &mut pre);
+        let restore = |g: &mut Self, saved: (Option<(&'static str, usize)>, BTreeMap<&'static str, usize>)| {
+            g.inject = saved.0;
+            g.site_count = saved.1;
+        };
         if pre.is_empty() {
+            restore(self, saved);
             return e;
         }
         let mut pre2 = String::new();
         let l = self.leaf(t, scope, &mut pre2);
+        restore(self, saved);
         if pre2.is_empty() { l } else { "true".into() }
     }
 
@@ -614,18 +683,25 @@ impl<'a> Gen<'a> {
                     return format!("vec_len({})", v);
                 }
                 let a = self.expr(t, scope, d, pre);
+                // `b` is not used by every operator below: no injection site inside it
+                let saved = (self.inject.take(), self.site_count.clone());
                 let b = self.expr(t, scope, d, pre);
+                self.inject = saved.0;
+                self.site_count = saved.1;
                 match self.rng.below(5) {
                     0 => {
                         self.feat("arith-add");
+                        let b = if self.hit("operand-type") { "true".to_string() } else { b };
                         format!("({} + {})", a, b)
                     }
                     1 => {
                         self.feat("arith-sub");
+                        let b = if self.hit("operand-type") { "true".to_string() } else { b };
                         format!("({} - {})", a, b)
                     }
                     2 => {
                         self.feat("arith-mul");
+                        let b = if self.hit("operand-type") { "true".to_string() } else { b };
                         format!("({} * {})", a, b)
                     }
                     3 => {
@@ -680,6 +756,16 @@ impl<'a> Gen<'a> {
                 }
                 _ => self.leaf(t, scope, pre),
             },
+            T::Str if !self.cur_bounded.is_empty() && self.rng.chance(1, 2) && self.bounded_var(scope).is_some() => {
+                self.feat("bounded-trait-call");
+                let v = self.bounded_var(scope).unwrap();
+                match self.rng.below(3) {
+                    0 => format!("Show::show({})", v),
+                    1 => format!("show_twice({})", v),
+                    _ if v.starts_with('y') => format!("{}.show()", v),
+                    _ => format!("Show::show({})", v),
+                }
+            }
             T::Str => match self.rng.below(5) {
                 0 => {
                     self.feat("str-concat");
@@ -691,13 +777,13 @@ impl<'a> Gen<'a> {
                     self.feat("to_string");
                     let it = self.base_ty();
                     let it = if it == T::Str { T::I32 } else { it };
-                    let a = self.expr(&it, scope, d, pre);
+                    let a = if self.hit("arg-type") { Self::wrong_value(&it) } else { self.expr(&it, scope, d, pre) };
                     format!("{}({})", Self::to_string_fn(&it), a)
                 }
                 3 if self.cfg.traits && !self.show_impls.is_empty() => {
                     self.feat("trait-call");
                     let st = self.rng.pick(&self.show_impls.clone()).clone();
-                    let a = self.expr(&st, scope, d, pre);
+                    let a = if self.hit("annot-type") { Self::wrong_value(&st) } else { self.expr(&st, scope, d, pre) };
                     let tv = self.fresh("sv");
                     write!(pre, "let {}: {} = {}; ", tv, self.ty_text(&st), a).unwrap();
                     match self.rng.below(4) {
@@ -761,6 +847,14 @@ impl<'a> Gen<'a> {
                         fields.push(format!("f{}: {}", k, e));
                     }
                 }
+                let fields: Vec<String> = fts
+                    .iter()
+                    .enumerate()
+                    .map(|(k, ft)| {
+                        let v = if self.hit("field-type") { Self::wrong_value(ft) } else { self.expr(ft, scope, d, pre) };
+                        if self.hit("unknown-field") { format!("zz{}: {}", k, v) } else { format!("f{}: {}", k, v) }
+                    })
+                    .collect();
                 format!("S{} {{ {} }}", i, fields.join(", "))
             }
             T::Enum(i) => {
@@ -798,6 +892,11 @@ impl<'a> Gen<'a> {
                         format!("array_set([{}], {}, {})", items.join(", "), i, v)
                     } else {
                         let name = self.fresh("as");
+                        let mut items = items;
+                        if self.hit("array-length") {
+                            let extra = items[0].clone();
+                            items.push(extra);
+                        }
                         write!(pre, "let {}: {} = array_set([{}], {}, {}); ", name, self.ty_text(t), items.join(", "), i, v).unwrap();
                         name
                     }
@@ -835,6 +934,36 @@ impl<'a> Gen<'a> {
                 let body = self.expr_nopre(r, &sc, d);
                 format!("|{}| {}", names.join(", "), body)
             }
+            T::Bx(inner) => {
+                self.feat("generic-struct");
+                let a = self.expr(inner, scope, d, pre);
+                if self.rng.chance(1, 2) { format!("Bx {{ v: {} }}", a) } else { format!("mkbx({})", a) }
+            }
+            T::Pr(x, y) => {
+                self.feat("generic-struct2");
+                let a = self.expr(x, scope, d, pre);
+                let b = self.expr(y, scope, d, pre);
+                match self.rng.below(3) {
+                    0 => format!("mkpr({}, {})", a, b),
+                    1 => format!("Pr::new({}, {})", a, b),
+                    _ => format!("Pr {{ a: {}, b: {} }}", a, b),
+                }
+            }
+            T::Lst(inner) => {
+                self.feat("generic-rec-enum");
+                let nil = self.fresh("nl");
+                write!(pre, "let {}: {} = Lst::Nil; ", nil, self.ty_text(t)).unwrap();
+                let mut cur = nil;
+                for _ in 0..self.rng.below(3) {
+                    let a = self.expr(inner, scope, d, pre);
+                    cur = if self.rng.chance(1, 2) { format!("Lst::Cons({}, {})", a, cur) } else { format!("lcons({}, {})", a, cur) };
+                }
+                cur
+            }
+            T::Param(_) => {
+                let vars = Self::vars_of(scope, t);
+                (*self.rng.pick(&vars)).clone()
+            }
             _ => self.leaf(t, scope, pre),
         }
     }
@@ -851,6 +980,7 @@ impl<'a> Gen<'a> {
 
     /// `{ stmts; tail }` of type `t`
     fn block(&mut self, t: &T, scope: &Scope, depth: usize) -> String {
+        let is_top = std::mem::replace(&mut self.top_block, false);
         let mut sc = scope.clone();
         let mut s = String::from("{ ");
         let n = self.rng.below(3);
@@ -858,7 +988,7 @@ impl<'a> Gen<'a> {
             self.stmt(&mut sc, depth, &mut s);
         }
         let mut pre = String::new();
-        let tail = self.expr(t, &sc, depth, &mut pre);
+        let tail = if is_top && self.hit("ret-type") { Self::wrong_value(t) } else { self.expr(t, &sc, depth, &mut pre) };
         write!(s, "{}{} }}", pre, tail).unwrap();
         s
     }
@@ -967,6 +1097,516 @@ impl<'a> Gen<'a> {
         }
     }
 
+
+    // ------------------------------------------------------------------ rich generics (C07)
+
+    /// a concrete type for the rich-generics stream: every type constructor, nested
+    fn rich_ty(&mut self, depth: usize) -> T {
+        if depth == 0 {
+            return if self.rng.chance(1, 10) { T::Unit } else { self.base_ty() };
+        }
+        let d = depth - 1;
+        match self.rng.below(20) {
+            0..=3 => self.base_ty(),
+            4 => {
+                let n = 2 + self.rng.below(2);
+                T::Tuple((0..n).map(|_| self.rich_ty(d)).collect())
+            }
+            5 if !self.structs.is_empty() => T::Struct(self.rng.below(self.structs.len())),
+            6 if !self.enums.is_empty() => T::Enum(self.rng.below(self.enums.len())),
+            7 | 8 => T::Opt(Box::new(self.rich_ty(d))),
+            9 => T::Arr(Box::new(self.rich_ty(d)), 2 + self.rng.below(2)),
+            10 => {
+                if self.cfg.vec_generics { T::Vec(Box::new(self.rich_ty(d))) } else { T::Vec(Box::new(self.base_ty())) }
+            }
+            11 => T::Ref(Box::new(self.rich_ty(d))),
+            12 | 13 => T::Bx(Box::new(self.rich_ty(d))),
+            14 => T::Pr(Box::new(self.rich_ty(d)), Box::new(self.rich_ty(d))),
+            15 | 16 => T::Lst(Box::new(self.rich_ty(d))),
+            17 if self.cfg.closure_flows => T::Fn(vec![self.base_ty()], Box::new(self.rich_ty(d))),
+            18 => T::Unit,
+            _ => self.base_ty(),
+        }
+    }
+
+    /// a type over the type parameters `0..np` (signature of a random generic function)
+    fn pat_ty(&mut self, np: usize, depth: usize) -> T {
+        let p = T::Param(self.rng.below(np));
+        if depth == 0 {
+            return if self.rng.chance(2, 3) { p } else { self.base_ty() };
+        }
+        let d = depth - 1;
+        match self.rng.below(14) {
+            0..=2 => p,
+            3 => self.base_ty(),
+            4 => T::Opt(Box::new(self.pat_ty(np, d))),
+            5 => T::Tuple(vec![self.pat_ty(np, d), self.pat_ty(np, d)]),
+            6 => T::Bx(Box::new(self.pat_ty(np, d))),
+            7 => T::Lst(Box::new(self.pat_ty(np, d))),
+            8 => T::Ref(Box::new(self.pat_ty(np, d))),
+            9 => T::Arr(Box::new(self.pat_ty(np, d)), 2),
+            10 => T::Pr(Box::new(self.pat_ty(np, d)), Box::new(self.pat_ty(np, d))),
+            11 if self.cfg.vec_generics => T::Vec(Box::new(self.pat_ty(np, d))),
+            12 if self.cfg.closure_flows => T::Fn(vec![self.pat_ty(np, 0)], Box::new(self.pat_ty(np, 0))),
+            _ => p,
+        }
+    }
+
+    fn match_ty(p: &T, t: &T, b: &mut Vec<Option<T>>) -> bool {
+        match (p, t) {
+            (T::Param(i), _) => match &b[*i] {
+                Some(x) => x == t,
+                None => {
+                    b[*i] = Some(t.clone());
+                    true
+                }
+            },
+            (T::Tuple(ps), T::Tuple(ts)) => ps.len() == ts.len() && ps.iter().zip(ts.iter()).all(|(p, t)| Self::match_ty(p, t, b)),
+            (T::Opt(p), T::Opt(t)) | (T::Bx(p), T::Bx(t)) | (T::Lst(p), T::Lst(t)) | (T::Vec(p), T::Vec(t)) | (T::Ref(p), T::Ref(t)) => {
+                Self::match_ty(p, t, b)
+            }
+            (T::Arr(p, n), T::Arr(t, m)) => n == m && Self::match_ty(p, t, b),
+            (T::Pr(p1, p2), T::Pr(t1, t2)) => Self::match_ty(p1, t1, b) && Self::match_ty(p2, t2, b),
+            (T::Fn(ps, pr), T::Fn(ts, tr)) => {
+                ps.len() == ts.len() && ps.iter().zip(ts.iter()).all(|(p, t)| Self::match_ty(p, t, b)) && Self::match_ty(pr, tr, b)
+            }
+            _ => p == t,
+        }
+    }
+
+    fn subst_ty(p: &T, b: &[T]) -> T {
+        match p {
+            T::Param(i) => b[*i].clone(),
+            T::Tuple(ps) => T::Tuple(ps.iter().map(|p| Self::subst_ty(p, b)).collect()),
+            T::Opt(p) => T::Opt(Box::new(Self::subst_ty(p, b))),
+            T::Bx(p) => T::Bx(Box::new(Self::subst_ty(p, b))),
+            T::Lst(p) => T::Lst(Box::new(Self::subst_ty(p, b))),
+            T::Vec(p) => T::Vec(Box::new(Self::subst_ty(p, b))),
+            T::Ref(p) => T::Ref(Box::new(Self::subst_ty(p, b))),
+            T::Arr(p, n) => T::Arr(Box::new(Self::subst_ty(p, b)), *n),
+            T::Pr(x, y) => T::Pr(Box::new(Self::subst_ty(x, b)), Box::new(Self::subst_ty(y, b))),
+            T::Fn(ps, r) => T::Fn(ps.iter().map(|p| Self::subst_ty(p, b)).collect(), Box::new(Self::subst_ty(r, b))),
+            t => t.clone(),
+        }
+    }
+
+    fn is_showable(&self, t: &T) -> bool {
+        self.show_impls.contains(t) || matches!(t, T::Param(i) if self.cur_bounded.contains(i))
+    }
+
+    fn showable_ty(&mut self) -> T {
+        let v = self.show_impls.clone();
+        self.rng.pick(&v).clone()
+    }
+
+    fn bounded_var(&self, scope: &Scope) -> Option<String> {
+        scope.iter().rev().find(|(_, t)| matches!(t, T::Param(i) if self.cur_bounded.contains(i))).map(|(n, _)| n.clone())
+    }
+
+    /// a call of a generic function / method whose result has type `t`
+    fn generic_call(&mut self, t: &T, scope: &Scope, d: usize, pre: &mut String) -> Option<String> {
+        // calls of the random generic functions declared so far
+        if !self.fns.is_empty() && self.rng.chance(1, 3) {
+            let mut cands = Vec::new();
+            for (i, f) in self.fns.iter().enumerate() {
+                if f.tparams == 0 {
+                    continue;
+                }
+                let mut b = vec![None; f.tparams];
+                if Self::match_ty(&f.ret, t, &mut b) {
+                    cands.push((i, b));
+                }
+            }
+            if !cands.is_empty() {
+                let (fi, b) = self.rng.pick(&cands).clone();
+                let bounded = self.fns[fi].bounded.clone();
+                let mut bind = Vec::new();
+                let mut ok = true;
+                for (k, x) in b.into_iter().enumerate() {
+                    let needs_show = bounded.contains(&k);
+                    match x {
+                        Some(ty) => {
+                            if needs_show && !self.is_showable(&ty) {
+                                ok = false;
+                            }
+                            bind.push(ty);
+                        }
+                        None => bind.push(if needs_show { self.showable_ty() } else { self.rich_ty(1) }),
+                    }
+                }
+                if ok {
+                    self.feat("generic-call-random-fn");
+                    let ps = self.fns[fi].params.clone();
+                    let name = self.fns[fi].name.clone();
+                    let args: Vec<String> = ps.iter().map(|p| self.expr(&Self::subst_ty(p, &bind), scope, d, pre)).collect();
+                    return Some(format!("{}({})", name, args.join(", ")));
+                }
+            }
+        }
+        // type-specific library functions
+        if self.rng.chance(1, 2) {
+            match t {
+                T::Tuple(ts) if ts.len() == 2 => {
+                    if ts[0] == ts[1] && self.rng.chance(1, 2) {
+                        self.feat("g-dup");
+                        let a = self.expr(&ts[0], scope, d, pre);
+                        return Some(format!("dup({})", a));
+                    }
+                    self.feat("g-swp");
+                    let a = self.expr(&ts[1], scope, d, pre);
+                    let b = self.expr(&ts[0], scope, d, pre);
+                    return Some(format!("swp(({}, {}))", a, b));
+                }
+                T::Bx(u) => {
+                    if let T::Bx(w) = &**u {
+                        self.feat("g-nested-struct");
+                        let a = self.expr(w, scope, d, pre);
+                        return Some(format!("bxbx({})", a));
+                    }
+                    self.feat("g-method-set");
+                    let other = self.expr(u, scope, d, pre);
+                    let a = self.expr(u, scope, d, pre);
+                    let v = self.fresh("bx");
+                    write!(pre, "let {}: {} = mkbx({}); ", v, self.ty_text(t), other).unwrap();
+                    return Some(format!("{}.set({})", v, a));
+                }
+                T::Pr(x, y) => {
+                    self.feat("g-method-swap");
+                    let a = self.expr(y, scope, d, pre);
+                    let b = self.expr(x, scope, d, pre);
+                    let v = self.fresh("pr");
+                    write!(pre, "let {}: {} = mkpr({}, {}); ", v, self.ty_text(&T::Pr(y.clone(), x.clone())), a, b).unwrap();
+                    return Some(format!("{}.swap()", v));
+                }
+                T::Opt(u) => {
+                    if let T::Opt(w) = &**u {
+                        if self.rng.chance(1, 2) {
+                            self.feat("g-nested-enum");
+                            let a = self.expr(w, scope, d, pre);
+                            return Some(format!("nest({})", a));
+                        }
+                    }
+                    self.feat("g-opt-map");
+                    let w = self.rich_ty(1);
+                    let o = self.expr(&T::Opt(Box::new(w.clone())), scope, d, pre);
+                    let z = self.fresh("z");
+                    let mut sc = scope.clone();
+                    sc.push((z.clone(), w.clone()));
+                    let body = self.expr_nopre(u, &sc, d);
+                    return Some(format!("opt_map({}, |{}: {}| {})", o, z, self.ty_text(&w), body));
+                }
+                T::Lst(u) => {
+                    self.feat("g-lcons");
+                    let a = self.expr(u, scope, d, pre);
+                    let l = self.expr(t, scope, d, pre);
+                    return Some(format!("lcons({}, {})", a, l));
+                }
+                T::Arr(u, 2) => {
+                    self.feat("g-arrswap");
+                    let a = self.expr(u, scope, d, pre);
+                    let b = self.expr(u, scope, d, pre);
+                    return Some(format!("arrswap([{}, {}])", a, b));
+                }
+                T::Vec(u) if self.cfg.vec_generics => {
+                    self.feat("g-vsingle");
+                    let a = self.expr(u, scope, d, pre);
+                    return Some(format!("vsingle({})", a));
+                }
+                T::I32 => {
+                    if self.cfg.vec_generics && self.rng.chance(1, 2) {
+                        self.feat("g-vlen");
+                        let u = self.rich_ty(1);
+                        let v = self.expr(&T::Vec(Box::new(u)), scope, d, pre);
+                        return Some(format!("vlen2({})", v));
+                    }
+                    self.feat("g-llen");
+                    let u = self.rich_ty(1);
+                    let l = self.expr(&T::Lst(Box::new(u)), scope, d, pre);
+                    return Some(format!("llen({})", l));
+                }
+                T::Str if self.cfg.traits => {
+                    let st = if !self.cur_bounded.is_empty() && self.rng.chance(1, 2) {
+                        T::Param(*self.rng.pick(&self.cur_bounded.clone()))
+                    } else {
+                        self.showable_ty()
+                    };
+                    if matches!(st, T::Param(_)) && Self::vars_of(scope, &st).is_empty() {
+                        return None;
+                    }
+                    let a = self.expr(&st, scope, d, pre);
+                    let tv = self.fresh("sv");
+                    write!(pre, "let {}: {} = {}; ", tv, self.ty_text(&st), a).unwrap();
+                    return Some(match self.rng.below(5) {
+                        0 => {
+                            self.feat("g-show-twice");
+                            format!("show_twice({})", tv)
+                        }
+                        1 => {
+                            self.feat("g-show-pair");
+                            let st2 = self.showable_ty();
+                            let b = self.expr(&st2, scope, d, pre);
+                            format!("show_pair({}, {})", tv, b)
+                        }
+                        2 => {
+                            self.feat("g-show-opt");
+                            if self.rng.chance(1, 3) {
+                                let o = self.fresh("o");
+                                write!(pre, "let {}: Opt[{}] = Opt::Non; ", o, self.ty_text(&st)).unwrap();
+                                format!("show_opt({})", o)
+                            } else {
+                                format!("show_opt(Opt::Som({}))", tv)
+                            }
+                        }
+                        3 => {
+                            self.feat("g-show-pick");
+                            let c = self.expr(&T::Bool, scope, d, pre);
+                            format!("show_pick({}, {}, {})", c, tv, tv)
+                        }
+                        _ => {
+                            self.feat("g-show-lst");
+                            let nl = self.fresh("nl");
+                            write!(pre, "let {}: Lst[{}] = Lst::Nil; ", nl, self.ty_text(&st)).unwrap();
+                            format!("show_lst(Lst::Cons({}, lcons({}, {})))", tv, tv, nl)
+                        }
+                    });
+                }
+                _ => {}
+            }
+        }
+        if self.cfg.dyn_generics && self.cfg.traits && self.rng.chance(1, 4) {
+            // a generic function with a `dyn Show` parameter / a type parameter instantiated at `dyn Show`
+            // (Sem has no type key for an instance of a generic type behind `dyn`: monomorphic impls only)
+            let st = self.showable_ty();
+            let st = if matches!(st, T::Param(_) | T::Bx(_) | T::Opt(_)) { T::I32 } else { st };
+            let a = self.expr(&st, scope, d, pre);
+            let dv = self.fresh("dy");
+            let tv = self.fresh("sv");
+            write!(pre, "let {}: {} = {}; let {}: dyn Show = {}; ", tv, self.ty_text(&st), a, dv, tv).unwrap();
+            let e = self.expr(t, scope, d, pre);
+            return Some(if self.rng.chance(1, 2) {
+                self.feat("g-dyn-param");
+                format!("lab({}, {})", dv, e)
+            } else {
+                self.feat("g-dyn-instance");
+                format!("konst({}, {})", e, dv)
+            });
+        }
+        // functions polymorphic in the result type
+        let other = self.rich_ty(1);
+        let k = self.rng.below(if self.cfg.vec_generics { 17 } else { 16 });
+        Some(match k {
+            0 => {
+                self.feat("g-idg");
+                let a = self.expr(t, scope, d, pre);
+                format!("idg({})", a)
+            }
+            1 => {
+                self.feat("g-pick");
+                let c = self.expr(&T::Bool, scope, d, pre);
+                let a = self.expr(t, scope, d, pre);
+                let b = self.expr(t, scope, d, pre);
+                format!("pick({}, {}, {})", c, a, b)
+            }
+            2 => {
+                self.feat("g-fst");
+                let a = self.expr(t, scope, d, pre);
+                let b = self.expr(&other, scope, d, pre);
+                format!("fst(({}, {}))", a, b)
+            }
+            3 => {
+                self.feat("g-snd");
+                let a = self.expr(t, scope, d, pre);
+                let b = self.expr(&other, scope, d, pre);
+                format!("snd(({}, {}))", b, a)
+            }
+            4 => {
+                self.feat("g-unbx");
+                let a = self.expr(&T::Bx(Box::new(t.clone())), scope, d, pre);
+                format!("unbx({})", a)
+            }
+            5 => {
+                self.feat("g-method-get");
+                let a = self.expr(&T::Bx(Box::new(t.clone())), scope, d, pre);
+                let v = self.fresh("bx");
+                write!(pre, "let {}: {} = {}; ", v, self.ty_text(&T::Bx(Box::new(t.clone()))), a).unwrap();
+                format!("{}.get()", v)
+            }
+            6 => {
+                self.feat("g-pra");
+                let a = self.expr(&T::Pr(Box::new(t.clone()), Box::new(other.clone())), scope, d, pre);
+                format!("pra({})", a)
+            }
+            7 => {
+                self.feat("g-opt-or");
+                let o = self.expr(&T::Opt(Box::new(t.clone())), scope, d, pre);
+                let a = self.expr(t, scope, d, pre);
+                format!("opt_or({}, {})", o, a)
+            }
+            8 => {
+                self.feat("g-twice");
+                let z = self.fresh("z");
+                let mut sc = scope.clone();
+                sc.push((z.clone(), t.clone()));
+                let body = self.expr_nopre(t, &sc, d);
+                let a = self.expr(t, scope, d, pre);
+                format!("twice(|{}: {}| {}, {})", z, self.ty_text(t), body, a)
+            }
+            9 => {
+                self.feat("g-lhead");
+                let l = self.expr(&T::Lst(Box::new(t.clone())), scope, d, pre);
+                let a = self.expr(t, scope, d, pre);
+                format!("lhead({}, {})", l, a)
+            }
+            10 => {
+                self.feat("g-arr0");
+                let a = self.expr(t, scope, d, pre);
+                let b = self.expr(t, scope, d, pre);
+                format!("arr0([{}, {}])", a, b)
+            }
+            11 => {
+                self.feat("g-rget");
+                let a = self.expr(t, scope, d, pre);
+                format!("rget(ref({}))", a)
+            }
+            12 => {
+                self.feat("g-rput");
+                let a = self.expr(t, scope, d, pre);
+                let b = self.expr(t, scope, d, pre);
+                let r = self.fresh("r");
+                write!(pre, "let {} = ref({}); let _ = rput({}, {}); ", r, a, r, b).unwrap();
+                format!("rget({})", r)
+            }
+            13 => {
+                self.feat("g-unnest");
+                let a = self.expr(t, scope, d, pre);
+                let b = self.expr(t, scope, d, pre);
+                format!("unnest(nest({}), {})", a, b)
+            }
+            14 => {
+                self.feat("g-dup-proj");
+                let a = self.expr(t, scope, d, pre);
+                let v = self.fresh("dp");
+                write!(pre, "let {}: {} = dup({}); ", v, self.ty_text(&T::Tuple(vec![t.clone(), t.clone()])), a).unwrap();
+                format!("{}.{}", v, self.rng.below(2))
+            }
+            15 => {
+                self.feat("g-opt-map-or");
+                let o = self.expr(&T::Opt(Box::new(other.clone())), scope, d, pre);
+                let z = self.fresh("z");
+                let mut sc = scope.clone();
+                sc.push((z.clone(), other.clone()));
+                let body = self.expr_nopre(t, &sc, d);
+                let a = self.expr(t, scope, d, pre);
+                format!("opt_or(opt_map({}, |{}: {}| {}), {})", o, z, self.ty_text(&other), body, a)
+            }
+            _ => {
+                self.feat("g-vfirst");
+                let v = self.expr(&T::Vec(Box::new(t.clone())), scope, d, pre);
+                let a = self.expr(t, scope, d, pre);
+                format!("vfirst({}, {})", v, a)
+            }
+        })
+    }
+
+    fn generic_library(&mut self, src: &mut String) {
+        src.push_str(
+            r#"struct Bx[T] { v: T }
+struct Pr[A, B] { a: A, b: B }
+enum Lst[T] { Nil, Cons(T, Lst[T]) }
+fn idg[T](x: T) -> T { x }
+fn fst[A, B](p: (A, B)) -> A { p.0 }
+fn snd[A, B](p: (A, B)) -> B { p.1 }
+fn swp[A, B](p: (A, B)) -> (B, A) { (p.1, p.0) }
+fn unbx[T](b: Bx[T]) -> T { b.v }
+fn mkbx[T](x: T) -> Bx[T] { Bx { v: x } }
+fn bxbx[T](x: T) -> Bx[Bx[T]] { mkbx(mkbx(x)) }
+fn mkpr[A, B](a: A, b: B) -> Pr[A, B] { Pr { a: a, b: b } }
+fn pra[A, B](p: Pr[A, B]) -> A { p.a }
+fn opt_or[T](o: Opt[T], d: T) -> T { match o { Opt::Som(x) => x, Opt::Non => d } }
+fn opt_map[T, U](o: Opt[T], f: (T) -> U) -> Opt[U] { match o { Opt::Som(x) => Opt::Som(f(x)), Opt::Non => Opt::Non } }
+fn twice[T](f: (T) -> T, x: T) -> T { f(f(x)) }
+fn lcons[T](x: T, l: Lst[T]) -> Lst[T] { Lst::Cons(x, l) }
+fn llen[T](l: Lst[T]) -> int32 { match l { Lst::Nil => 0, Lst::Cons(_, t) => 1 + llen(t) } }
+fn lhead[T](l: Lst[T], d: T) -> T { match l { Lst::Nil => d, Lst::Cons(h, _) => h } }
+fn arr0[T](a: [T; 2]) -> T { array_get(a, 0) }
+fn arrswap[T](a: [T; 2]) -> [T; 2] { [array_get(a, 1), array_get(a, 0)] }
+fn rget[T](r: Ref[T]) -> T { ref_get(r) }
+fn rput[T](r: Ref[T], x: T) -> T { let o = ref_get(r); let _ = ref_set(r, x); o }
+fn dup[T](x: T) -> (T, T) { (idg(x), pick(true, x, x)) }
+fn nest[T](x: T) -> Opt[Opt[T]] { Opt::Som(Opt::Som(x)) }
+fn unnest[T](o: Opt[Opt[T]], d: T) -> T { opt_or(opt_or(o, Opt::Som(d)), d) }
+impl[T] Bx[T] {
+    fn get(self: Bx[T]) -> T { self.v }
+    fn set(self: Bx[T], x: T) -> Bx[T] { Bx { v: x } }
+}
+impl[A, B] Pr[A, B] {
+    fn new(a: A, b: B) -> Pr[A, B] { Pr { a: a, b: b } }
+    fn swap(self: Pr[A, B]) -> Pr[B, A] { Pr { a: self.b, b: self.a } }
+}
+"#,
+        );
+        if self.cfg.vec_generics {
+            src.push_str(
+                r#"fn vsingle[T](x: T) -> Vec[T] { let v: Vec[T] = vec_new(); vec_push(v, x) }
+fn vfirst[T](v: Vec[T], d: T) -> T { if vec_len(v) > 0 { vec_get(v, 0) } else { d } }
+fn vlen2[T](v: Vec[T]) -> int32 { vec_len(v) }
+"#,
+            );
+        }
+        if self.cfg.traits {
+            src.push_str(
+                r#"impl Show for Bx[int32] { fn show(self: Bx[int32]) -> string { "Bx" + int32_to_string(self.v) } }
+impl Show for Opt[bool] { fn show(self: Opt[bool]) -> string { match self { Opt::Som(b) => bool_to_string(b), Opt::Non => "non" } } }
+fn show_pair[A: Show, B: Show](a: A, b: B) -> string { show_twice(a) + Show::show(b) }
+fn show_opt[T: Show](o: Opt[T]) -> string { match o { Opt::Som(x) => { let y: T = x; Show::show(y) }, Opt::Non => "-" } }
+fn show_pick[T: Show](c: bool, a: T, b: T) -> string { let r: T = pick(c, a, b); Show::show(r) }
+fn lab[T](d: dyn Show, x: T) -> T { let _ = string_println(Show::show(d)); x }
+fn konst[A, B](a: A, b: B) -> A { a }
+fn show_lst[T: Show](l: Lst[T]) -> string { match l { Lst::Nil => ".", Lst::Cons(h, t) => { let y: T = h; show_twice(y) + show_lst(t) } } }
+"#,
+            );
+            self.show_impls.push(T::Bx(Box::new(T::I32)));
+            self.show_impls.push(T::Opt(Box::new(T::Bool)));
+        }
+    }
+
+    /// random generic functions `g<i>[A, B…](…) -> …` whose bodies are generated type-directed with the
+    /// type parameters as opaque types
+    fn random_generic_fns(&mut self, src: &mut String) {
+        let n = 1 + self.rng.below(3);
+        for i in 0..n {
+            let np = 1 + self.rng.below(2);
+            let mut bounded = Vec::new();
+            for k in 0..np {
+                if self.cfg.traits && self.rng.chance(1, 3) {
+                    bounded.push(k);
+                }
+            }
+            let mut params: Vec<T> = (0..np).map(T::Param).collect();
+            for _ in 0..self.rng.below(3) {
+                let p = if self.rng.chance(1, 3) { self.base_ty() } else { self.pat_ty(np, 1) };
+                params.push(p);
+            }
+            let ret = self.pat_ty(np, 2);
+            let mut scope: Scope = Vec::new();
+            let mut ptxt = Vec::new();
+            for (k, p) in params.iter().enumerate() {
+                let nm = format!("y{}_{}", i, k);
+                ptxt.push(format!("{}: {}", nm, self.ty_text(p)));
+                scope.push((nm, p.clone()));
+            }
+            let gtxt: Vec<String> =
+                (0..np).map(|k| if bounded.contains(&k) { format!("{}: Show", ["A", "B", "C"][k]) } else { ["A", "B", "C"][k].to_string() }).collect();
+            self.cur_bounded = bounded.clone();
+            let depth = self.cfg.max_depth;
+            let body = self.block(&ret, &scope, depth);
+            self.cur_bounded.clear();
+            writeln!(src, "fn g{}[{}]({}) -> {} {}", i, gtxt.join(", "), ptxt.join(", "), self.ty_text(&ret), body).unwrap();
+            self.feat("random-generic-fn");
+            self.fns.push(FnD { name: format!("g{}", i), params, ret, tparams: np, bounded });
+        }
+    }
+
     /// code that prints a value of type `t` held in variable `v`
     fn show(&mut self, t: &T, v: &str, out: &mut String) {
         match t {
@@ -983,7 +1623,11 @@ impl<'a> Gen<'a> {
                 let fts = self.structs[*i].fields.clone();
                 for (k, ft) in fts.iter().enumerate() {
                     let n = self.fresh("s");
-                    write!(out, "let {} = {}.f{}; ", n, v, k).unwrap();
+                    if self.hit("unknown-field") {
+                        write!(out, "let {} = {}.zz{}; ", n, v, k).unwrap();
+                    } else {
+                        write!(out, "let {} = {}.f{}; ", n, v, k).unwrap();
+                    }
                     self.show(ft, &n, out);
                 }
             }
@@ -1028,6 +1672,36 @@ impl<'a> Gen<'a> {
                 let nm = self.fresh("s");
                 write!(out, "let {} = ref_get({}); ", nm, v).unwrap();
                 self.show(e, &nm, out);
+            }
+            T::Bx(e) => {
+                let nm = self.fresh("s");
+                if self.rng.chance(1, 2) {
+                    write!(out, "let {} = {}.v; ", nm, v).unwrap();
+                } else {
+                    let tmp = self.fresh("s");
+                    write!(out, "let {}: {} = {}; let {} = {}.get(); ", tmp, self.ty_text(t), v, nm, tmp).unwrap();
+                }
+                self.show(e, &nm, out);
+            }
+            T::Pr(x, y) => {
+                let (n1, n2) = (self.fresh("s"), self.fresh("s"));
+                write!(out, "let {} = {}.a; let {} = {}.b; ", n1, v, n2, v).unwrap();
+                self.show(x, &n1, out);
+                self.show(y, &n2, out);
+            }
+            T::Lst(e) => {
+                write!(out, "let _ = string_println(int32_to_string(llen({}))); ", v).unwrap();
+                let nm = self.fresh("s");
+                let mut body = String::new();
+                self.show(e, &nm, &mut body);
+                write!(out, "let _ = match {} {{ Lst::Cons({}, _) => {{ {}() }}, Lst::Nil => {{ string_println(\"Nil\") }}, }}; ", v, nm, body).unwrap();
+            }
+            T::Fn(ps, r) => {
+                let mut pre = String::new();
+                let args: Vec<String> = ps.iter().map(|p| self.expr(p, &Vec::new(), 0, &mut pre)).collect();
+                let nm = self.fresh("s");
+                write!(out, "{}let {} = {}({}); ", pre, nm, v, args.join(", ")).unwrap();
+                self.show(r, &nm, out);
             }
             _ => {}
         }
@@ -1098,6 +1772,10 @@ impl<'a> Gen<'a> {
             writeln!(src, "impl Poke for S0 {{ fn poke(self: S0) -> unit {{ string_println(\"poke S0\") }} }}").unwrap();
             writeln!(src, "fn poke_via[T: Poke](x: T) -> unit {{ Poke::poke(x) }}").unwrap();
         }
+        if self.cfg.rich_generics {
+            self.generic_library(&mut src);
+            self.random_generic_fns(&mut src);
+        }
         // functions; each may call the earlier ones only
         let nf = 2 + self.rng.below(3);
         for i in 0..nf {
@@ -1112,16 +1790,24 @@ impl<'a> Gen<'a> {
                 scope.push((n, p.clone()));
             }
             let depth = self.cfg.max_depth;
+            self.top_block = true;
             let body = self.block(&ret, &scope, depth);
             writeln!(src, "fn fun{}({}) -> {} {}", i, ptxt.join(", "), self.ty_text(&ret), body).unwrap();
-            self.fns.push(FnD { name: format!("fun{}", i), params, ret });
+            self.fns.push(FnD { name: format!("fun{}", i), params, ret, tparams: 0, bounded: vec![] });
         }
         // main: call every function and print what it returns
         let mut body = String::new();
         for i in 0..self.fns.len() {
-            let ps = self.fns[i].params.clone();
-            let ret = self.fns[i].ret.clone();
+            let mut ps = self.fns[i].params.clone();
+            let mut ret = self.fns[i].ret.clone();
             let name = self.fns[i].name.clone();
+            if self.fns[i].tparams > 0 {
+                // call the generic function at concrete type arguments
+                let bounded = self.fns[i].bounded.clone();
+                let bind: Vec<T> = (0..self.fns[i].tparams).map(|k| if bounded.contains(&k) { self.showable_ty() } else { self.rich_ty(2) }).collect();
+                ps = ps.iter().map(|p| Self::subst_ty(p, &bind)).collect();
+                ret = Self::subst_ty(&ret, &bind);
+            }
             let mut pre = String::new();
             let args: Vec<String> = ps.iter().map(|p| self.expr(p, &Vec::new(), 1, &mut pre)).collect();
             let r = self.fresh("res");
@@ -1131,6 +1817,15 @@ impl<'a> Gen<'a> {
         writeln!(src, "fn main() {{ {}() }}", body).unwrap();
         src
     }
+}
+
+/// like `gen_program`, with one type error injected at the `at`-th site of `kind` (None = none);
+/// returns the source, the number of sites of each kind seen, and what was injected
+pub fn gen_program_inject(rng: &mut Rng, cfg: Cfg, inject: Option<(&'static str, usize)>) -> (String, BTreeMap<&'static str, usize>, Option<String>) {
+    let mut g = Gen::new(rng, cfg);
+    g.inject = inject;
+    let src = g.program();
+    (src, g.site_count, g.injected)
 }
 
 pub fn gen_program(rng: &mut Rng, cfg: Cfg) -> (String, BTreeMap<&'static str, usize>) {
